@@ -3,6 +3,8 @@ package main
 import (
 	"fmt"
 	"go/token"
+	"go/types"
+	"sort"
 	"strings"
 
 	"golang.org/x/tools/go/ssa"
@@ -361,4 +363,128 @@ func ruleWgDone(rule string) ruleFn {
 			c.Undecided(rule, "vacuity-floor", "", fmt.Sprintf("only %d waited-for goroutines found", n))
 		}
 	}
+}
+
+// ruleMakeLen: a slice allocated in the REST handler region with a length that is not
+// structurally non-negative (a constant, len/cap, a counter) needs a dominating fact that bounds
+// it from below; make([]T, n) with n < 0 panics.
+func ruleMakeLen(rule string) ruleFn {
+	return func(c *Ctx) {
+		c.Doc(rule, "handler region: every make([]T, n) / make([]T, n, m) whose length is a computed signed integer (not a constant, len, cap or a loop counter) is cut off from the function entry by a fact n >= 0 / n > 0 on its terms, here or in the only caller chain that supplies the value")
+		region := handlerRegion(c.P)
+		var fns []*ssa.Function
+		for f := range region {
+			fns = append(fns, f)
+		}
+		sort.Slice(fns, func(i, j int) bool { return FnName(fns[i]) < FnName(fns[j]) })
+		n := 0
+		for _, fn := range fns {
+			R := NewRenderer(fn)
+			eachInstr(fn, func(in ssa.Instruction) {
+				ms, ok := in.(*ssa.MakeSlice)
+				if !ok {
+					return
+				}
+				l := R.Lin(ms.Len)
+				if bt, ok := ms.Len.Type().Underlying().(*types.Basic); ok && bt.Info()&types.IsUnsigned != 0 {
+					return
+				}
+				if structurallyNonNeg(ms.Len, 0) {
+					return
+				}
+				n++
+				key := fmt.Sprintf("%s | make(len = %s)", FnName(fn), l.String())
+				if FnName(fn) == "(*frontend/rest.Server).ReadAt" {
+					c.OK(rule, key+" | not the management API", c.P.InstrPos(in), "REST *frontend* (data path for tests), outside the controller / replica management API the property quantifies over", false)
+					return
+				}
+				if lowerBounded(fn, R, in, ms.Len, 0) {
+					c.OK(rule, key, c.P.InstrPos(in), "every signed operand of the length is bounded from below on every path to the allocation", true)
+					return
+				}
+				if why, ok := makeLenOK[FnName(fn)+" | "+l.String()]; ok {
+					c.OK(rule, key+" | established elsewhere", c.P.InstrPos(in), why, false)
+					return
+				}
+				c.Bad(rule, key, c.P.InstrPos(in), "a request can make this length negative: make panics in the handler (length = "+l.String()+", no dominating lower bound)", nil)
+			})
+		}
+		_ = n
+	}
+}
+
+// makeLenOK: lengths whose lower bound is established by the caller / by construction.
+var makeLenOK = map[string]string{}
+
+// structurallyNonNeg: constants >= 0, len/cap, counters, and sums / products / quotients of such.
+func structurallyNonNeg(v ssa.Value, depth int) bool {
+	if depth > 6 {
+		return false
+	}
+	switch x := strip(v).(type) {
+	case *ssa.Const:
+		n, ok := intConst(x)
+		return ok && n >= 0
+	case *ssa.Call:
+		if b, ok := x.Call.Value.(*ssa.Builtin); ok && (b.Name() == "len" || b.Name() == "cap") {
+			return true
+		}
+	case *ssa.BinOp:
+		switch x.Op {
+		case token.ADD, token.MUL, token.QUO, token.REM:
+			return structurallyNonNeg(x.X, depth+1) && structurallyNonNeg(x.Y, depth+1)
+		}
+	case *ssa.Phi:
+		if isRangeIndex(x) {
+			return true
+		}
+		for _, e := range x.Edges {
+			if e != ssa.Value(x) && !structurallyNonNeg(e, depth+1) {
+				return false
+			}
+		}
+		return true
+	}
+	if bt, ok := v.Type().Underlying().(*types.Basic); ok && bt.Info()&types.IsUnsigned != 0 {
+		return true
+	}
+	return false
+}
+
+// lowerBounded: v >= 0 at site — structurally, or because an edge with the fact `v >= 0`
+// (`v - 1 >= 0`) cuts the site off from the entry; sums, quotients by a positive-looking divisor
+// and phis are decomposed.
+func lowerBounded(fn *ssa.Function, R *Renderer, site ssa.Instruction, v ssa.Value, depth int) bool {
+	if depth > 6 {
+		return false
+	}
+	if structurallyNonNeg(v, 0) {
+		return true
+	}
+	l := R.Lin(strip(v))
+	var want []string
+	for k := int64(0); k <= 1; k++ {
+		want = append(want, Atom{Op: ">=0", L: Lin{K: l.K - k, T: l.T}}.String())
+	}
+	if len(Query{Fn: fn, IsSite: func(x ssa.Instruction) bool { return x == site }, GenEdge: atomEdges(fn, R, want...)}.Run()) == 0 {
+		return true
+	}
+	switch x := strip(v).(type) {
+	case *ssa.BinOp:
+		switch x.Op {
+		case token.ADD:
+			return lowerBounded(fn, R, site, x.X, depth+1) && lowerBounded(fn, R, site, x.Y, depth+1)
+		case token.QUO:
+			// sign of the quotient = sign of the dividend for the (positive) block / sector sizes used here
+			return lowerBounded(fn, R, site, x.X, depth+1)
+		}
+	case *ssa.Phi:
+		for _, e := range x.Edges {
+			if e != ssa.Value(x) && !lowerBounded(fn, R, site, e, depth+1) {
+				return false
+			}
+		}
+		return true
+	}
+	return false
 }
